@@ -24,7 +24,7 @@ func init() {
 		LevelNote: "Trusted: go/ssa construction; the classification of uses in internal/effects/globals.go (an unknown use is a violation); sync primitives are the only shareable package-level objects. Assumes io.Writer values handed to printer/dumper are not shared by the caller.",
 		Technique: "static analysis: SSA effect analysis of package-level state (who-writes / escape classification), banned-construct scan, dominance of publication over goroutine start",
 		Engine:    "effects",
-		Explanation: "no-global-writes: for each (function, package-level variable) pair in library packages the variable is only read; reference-typed variables may additionally escape into per-call state only if their referent type is immutable (immutable-shared: every store to a version.Version field anywhere in the module hits an object allocated in the same function). no-nondeterminism: per package the import set excludes time, math/rand, unsafe, reflect, sync, runtime, os; per function no map range, select, go, %p. cli-publish-before-go: in cmd/php-parser all stores to package-level variables are in main, on blocks dominating every go statement and not reachable from one; go targets and their callees store to none; goroutine arguments are channels.",
+		Explanation: "no-global-writes: for each (function, package-level variable) pair in library packages the variable is only read; reference-typed variables may additionally escape into per-call state only if their referent type is immutable (immutable-shared: every store to a version.Version field anywhere in the module hits an object allocated in the same function). no-nondeterminism: per package the import set excludes time, math/rand, unsafe, reflect, sync, runtime, os; per function no map range, select, go, %p. cli-publish-before-go: in cmd/php-parser all stores to package-level variables are in main, on blocks dominating every go statement and not reachable from one; go targets and their callees store to none; goroutine arguments are channels; send-fresh: whatever a worker sends on a channel inside its loop is built from variables that are fresh in each iteration (no buffer shared between a message already sent and the next one).",
 		Assumptions: []string{"callers do not share an input buffer, a tree or an io.Writer between concurrent pipelines", "third-party packages used by the CLI only (profile, realpath) are out of scope"},
 		TrustedBase: append([]string{"go/ssa (x/tools v0.29.0)"}, baseTrusted...),
 		Floors: []report.Floor{
@@ -34,6 +34,7 @@ func init() {
 			{Rule: "no-nondeterminism", What: "packages", Min: 16},
 			{Rule: "cli-publish-before-go", What: "go-statements", Min: 2},
 			{Rule: "cli-publish-before-go", What: "global-stores", Min: 8},
+			{Rule: "send-fresh", What: "sends", Min: 2},
 		},
 		Run: func(c *Ctx) {
 			c.Fixture("mini", "no-global-writes", true, func(p *load.Program, tb *kinds.Table) *report.RuleResult {
@@ -57,6 +58,12 @@ func init() {
 				r.Merge(effects.CLIPublish(w, "cmd/badcli"), "bad:")
 				return r
 			})
+			c.Fixture("mini", "send-fresh", true, func(p *load.Program, tb *kinds.Table) *report.RuleResult {
+				w, _ := effects.NewWorld(p)
+				r := effects.SendFresh(w, "cmd/goodcli")
+				r.Merge(effects.SendFresh(w, "cmd/badcli"), "bad:")
+				return r
+			})
 			if p, _, ok := c.RepoProgram(true); ok {
 				w := c.world(p, "no-global-writes")
 				if w == nil {
@@ -67,6 +74,7 @@ func init() {
 				c.Add(effects.ImmutableTypes(w, "pkg/version.Version"))
 				c.Add(effects.NoNondeterminism(w, lib...))
 				c.Add(effects.CLIPublish(w, "cmd/php-parser"))
+				c.Add(effects.SendFresh(w, "cmd/php-parser"))
 			}
 		},
 	}
